@@ -21,6 +21,9 @@ QUICK_SHARDS = 4
 MIN_NONTRIVIAL = 50
 FUZZ_RUNS = 240000     # thorough tier: atheris executions (all children)
 RULE = (
+    "Large graphs: connected graphs with 128-420 atoms (random tree plus "
+    "extra bonds, shuffled ids) built through the public operations, all "
+    "views compared with the model, then three more random edits. "
     "Histories of public editing operations (add/remove atom and bond incl. "
     "formed/broken/fleeting, set/delete atom and bond attributes incl. "
     "atom_type and reaction, set/delete descriptors, set/delete stereo "
@@ -64,7 +67,7 @@ def diff_kind(d: str) -> str:
     return "other"
 
 
-def step(cls, g, m, op, pos=""):
+def step(cls, g, m, op, pos="", pool=None):
     """Apply one history element to the real graph and the model; check the
     invariant.  -> (g', m')"""
     if op[0] == "q":
@@ -94,7 +97,7 @@ def step(cls, g, m, op, pos=""):
         return g, m
     m2 = O.apply_model(m, op)
     with guard(f"C09/{cls}/{op[0]}"):
-        g2 = O.apply_real(g, op)
+        g2 = O.apply_real(g, op, pool)
     if op[0] == "relabel_inplace":
         g2 = g
     try:
@@ -112,10 +115,62 @@ def check_case(ctx, case):
     cls = case["cls"]
     if case.get("mode") == "bfs":
         return bfs_replay(ctx, case)
+    if case.get("mode") == "scale":
+        return check_scale(ctx, case)
     g = rc.classes()[cls]()
     m = Model(cls)
+    # equal descriptors of one history are one shared object if the case
+    # says so (a caller may pass the same instance any number of times)
+    pool = {} if case.get("alias") else None
     for i, op in enumerate(case["ops"]):
-        g, m = step(cls, g, m, op, i)
+        g, m = step(cls, g, m, op, i, pool)
+
+
+def scale_ops(cls, n, seed):
+    """a connected graph with n atoms (random tree + n//10 extra bonds,
+    ids shuffled), as a list of operations"""
+    tp = S.seed_tape(seed)
+    ids = tp.shuffle(range(3, 3 + 2 * n))[:n]
+    ops = [["add_atom", a, tp.pick([6, 1, 8, 7]), {}] for a in ids]
+    have = set()
+    for i in range(1, n):
+        j = tp.below(i) if tp.chance(60) else i - 1
+        have.add(frozenset((ids[i], ids[j])))
+        ops.append(["add_bond", ids[i], ids[j], None, {}])
+    for _ in range(n // 10):
+        a, b = ids[tp.below(n)], ids[tp.below(n)]
+        if a != b and frozenset((a, b)) not in have:
+            have.add(frozenset((a, b)))
+            ops.append(["add_bond", a, b, None, {}])
+    return ops, ids
+
+
+def check_scale(ctx, case):
+    """large graphs: the views have to stay coherent beyond the sizes the
+    histories reach (index arithmetic, array dtypes)"""
+    cls, n = case["cls"], case["n"]
+    ops, ids = scale_ops(cls, n, case["seed"])
+    g = rc.classes()[cls]()
+    m = Model(cls)
+    for op in ops:
+        m = O.apply_model(m, op)
+        with guard(f"C09/{cls}/scale/{op[0]}"):
+            g = O.apply_real(g, op)
+    try:
+        sn = snapshot(g, f"C09/{cls}/scale")
+    except Violation as v:
+        raise Violation(v.sig, f"{n}-atom graph: {v.msg[:300]}")
+    d = snap_diff(sn, m.snapshot(), "exact")
+    if d:
+        raise Violation(f"C09/{cls}/scale/diverges-{diff_kind(d)}",
+                        f"{n}-atom graph: {d[:300]}")
+    tp = S.seed_tape(case["seed"] + 1)
+    for k in range(case.get("tail", 0)):
+        op = O.gen_op(tp, m, ids[:6] + [1, 2], elements=(6, 8, 1, 7),
+                      allow_copy=False)
+        if op is None or op[0].startswith("relabel"):
+            continue
+        g, m = step(cls, g, m, op, k)
 
 
 def gen(data: bytes):
@@ -133,7 +188,10 @@ def gen(data: bytes):
             continue
         m = O.apply_model(m, op)
         ops.append(op)
-    return {"cls": cls, "ops": ops}
+    case = {"cls": cls, "ops": ops}
+    if tp.chance(90):
+        case["alias"] = True
+    return case
 
 
 def nontrivial(case):
@@ -388,6 +446,19 @@ def run(ctx):
     ctx.extra["bfs_queries"] = tot_q
     ctx.extra["traces_validated_against_impl"] = tot_t + tot_q
     ctx.extra["bfs_depth_bound"] = str(depth)
+
+    # ---- large graphs (a handful, sizes around powers of two of n*n)
+    if not getattr(ctx, "collect_only", False):
+        sizes = [182, 260] if ctx.quick else [128, 181, 182, 183, 200, 257,
+                                               260, 330, 420]
+        jobs = [(c, n) for n in sizes for c in ("MG", "SMG", "CRG", "SCRG")]
+        for k, (c, n) in enumerate(jobs):
+            if k % ctx.nshards != ctx.shard:
+                continue
+            case = {"cls": c, "mode": "scale", "n": n,
+                    "seed": ctx.seed * 100 + n, "tail": 3}
+            ctx.run_case(lambda cs: check_scale(ctx, cs), case)
+            ctx.count(1, labels=(f"scale:{n}",), nontrivial=1)
 
     # ---- explorer B
     def check(case):
